@@ -364,6 +364,9 @@ func sizeShape(cs Case, F, T int64) string {
 		if e.SizeVia != "" {
 			s += "@" + e.SizeVia
 		}
+		if e.Lead != "" {
+			s += "~" + e.Lead
+		}
 		if len(parts) > 0 && strings.HasPrefix(parts[len(parts)-1], s) {
 			if !strings.HasSuffix(parts[len(parts)-1], "*") {
 				parts[len(parts)-1] += "*"
